@@ -19,7 +19,7 @@ EXPLANATION = ("_parse_rtcm3 is proved to have consumed the whole frame before a
 
 def units(tier):
     us = []
-    for q in ("_read_bytes", "_parse_rtcm3", "parse", "_do_error", "read", "__next__", "__iter__"):
+    for q in ("_read_bytes", "_parse_rtcm3", "parse", "_do_error", "read", "__next__", "__iter__", "__init__"):  # __init__: the error mode the caller chose is the one stored
         us += func_units(f"{R}.{q}", tier)
     # "returns exactly the undamaged frames": an undamaged frame's payload is refused by the constructor only when it lacks the
     # identity header (fewer than 2 bytes / 3 for 4076) or does not decode - never for being short but complete
